@@ -146,7 +146,7 @@ func TestCheck(t *testing.T) {
 	rec = mon.Open("C13")
 	defer rec.Close()
 	rec.Note("rule", "a case is one history of 2-8 goroutines x 1-3 keys driven in lock-step against one lock primitive (fifo.Mutex, fifo.Map, cmap.Mutex, lock.Context, lock.OuterCancel), with seeded parking of a caller at the verif hook points between the map look-up and the mutex operation; cmap additionally runs the two directed delete-and-release histories. An occupancy monitor shadows every critical section; FIFO grants are compared with arrival order; fifo.Map's entry count is read at idle points; cancellation and OuterCancel rules are judged from the recorded grants, cancellations and causes in virtual time. (stress) real contention without lock-step, judged by the occupancy monitor and by bubble deadlock / goroutine leak detection. (outer-bigtree) OuterCancel with 24000 contexts derived from a reader's context, scanned with Err() while the cancellation walk is in progress: no derived context reports an end whose cause is not yet the documented one. (outer-after-early-grant) a writer whose wait ended early because the readers released of their own accord: a reader admitted afterwards is not cancelled when that writer's grace period would have run out, and a second writer gets a full grace period of its own. (outer-ctx-ends-at-grant) caller contexts whose Err() ends them at the moment the lock looks at them: an error means no hold is left behind, no error means a real hold. Non-trivial = at least one acquisition had to wait; distinct = distinct step list.")
-	rec.Note("require", []string{"fifo.order_checked", "fifomap.idle_len_checked", "fifomap.park.map.lock.counted", "fifomap.park.map.unlock.counted", "cmap.park.lock.lookedup", "cmap.park.rlock.lookedup", "cmap.delete_unlock_safe", "cmap.directed.waiter_confirmed", "context.cancelled_while_waiting", "context.error_holds_nothing", "outer.writer_cancelled_readers_at_grace", "outer.reader_released_before_grace", "outer.reader_blocked_by_writer", "outer.rlock_error_holds_nothing_checked", "outer.free_lock_granted_at_once", "outer.grace_kept_for_holder_whose_parent_ended", "keys.zero_value_key_used", "outer.release_after_shutdown_returned", "outer.writers_exclusive_after_shutdown", "waits", "stress.acquisitions", "outer.bigtree.writer_granted_with_every_derived_context_cancelled", "outer.reader_after_early_grant_kept_until_next_writers_grace"})
+	rec.Note("require", []string{"fifo.order_checked", "fifomap.idle_len_checked", "fifomap.park.map.lock.counted", "fifomap.park.map.unlock.counted", "park.held_across_operations", "park.operations_issued_while_a_caller_is_parked", "cmap.park.lock.lookedup", "cmap.park.rlock.lookedup", "cmap.delete_unlock_safe", "cmap.directed.waiter_confirmed", "context.cancelled_while_waiting", "context.error_holds_nothing", "outer.writer_cancelled_readers_at_grace", "outer.reader_released_before_grace", "outer.reader_blocked_by_writer", "outer.rlock_error_holds_nothing_checked", "outer.free_lock_granted_at_once", "outer.grace_kept_for_holder_whose_parent_ended", "keys.zero_value_key_used", "outer.release_after_shutdown_returned", "outer.writers_exclusive_after_shutdown", "waits", "stress.acquisitions", "outer.bigtree.writer_granted_with_every_derived_context_cancelled", "outer.reader_after_early_grant_kept_until_next_writers_grace"})
 	ps := plans()
 	rec.Planned(len(ps))
 	for idx, pl := range ps {
@@ -264,17 +264,31 @@ func driveRandom(w *world, rng *mon.RNG, p prim, fifoCheck bool, park func(g int
 	var wg sync.WaitGroup
 	nsteps := rng.Range(6, 40)
 	waitQueue := map[string][]int{} // arrival order of waiters per key (harness view)
+	// A caller parked at a hook point stays there for the next 0-3 operations of OTHER goroutines in a share of
+	// the histories (keepFor > 0), so that a look-up, a count or a prune that is split from its mutex operation
+	// meets newcomers in between. A goroutine whose release has not returned issues nothing (releasing), and the
+	// rules that presuppose a settled lock (lost wake-up, entry count at idle) wait until nobody is parked.
+	releasing := make([]atomic.Bool, ng)
+	holdParks := park != nil && rng.Chance(1, 2)
+	keepFor := 0
+	anyParked := func() bool { return park != nil && park(-2) }
 	for s := 0; s < nsteps && !w.viol; s++ {
 		// choose a goroutine that is not waiting
 		var free []int
 		for i, g := range gs {
 			mu.Lock()
-			if g.waiting == nil {
+			if g.waiting == nil && !releasing[i].Load() {
 				free = append(free, i)
 			}
 			mu.Unlock()
 		}
 		if len(free) == 0 {
+			if anyParked() {
+				park(-1)
+				p.quiesce()
+				keepFor = 0
+				continue
+			}
 			break
 		}
 		g := free[rng.Intn(len(free))]
@@ -289,7 +303,8 @@ func driveRandom(w *world, rng *mon.RNG, p prim, fifoCheck bool, park func(g int
 			gs[g].holding = nil
 			mu.Unlock()
 			wg.Add(1)
-			go func() { defer wg.Done(); p.release(g, h.key, h.write) }()
+			releasing[g].Store(true)
+			go func() { defer wg.Done(); p.release(g, h.key, h.write); releasing[g].Store(false) }()
 		} else {
 			key := keys[rng.Intn(len(keys))]
 			write := !p.rw || rng.Chance(1, 2)
@@ -318,15 +333,28 @@ func driveRandom(w *world, rng *mon.RNG, p prim, fifoCheck bool, park func(g int
 		}
 		p.quiesce()
 		if park != nil {
-			park(-1) // resume anything parked at a hook, then settle again
-			p.quiesce()
+			if holdParks && keepFor == 0 && anyParked() {
+				keepFor = rng.Range(1, 4)
+				rec.Count("park.held_across_operations", 1)
+			}
+			if keepFor > 0 {
+				keepFor--
+			}
+			if keepFor == 0 {
+				park(-1) // resume anything parked at a hook, then settle again
+				p.quiesce()
+			}
 		}
 		if v := w.occ.violation(); v != "" {
 			w.violation(p.name+"/two-holders", v)
 			return true
 		}
+		stillParked := anyParked()
+		if stillParked {
+			rec.Count("park.operations_issued_while_a_caller_is_parked", 1)
+		}
 		// FIFO: whoever is granted now must be the head of the wait queue
-		if fifoCheck {
+		if fifoCheck && !stillParked {
 			for _, k := range keys {
 				mu.Lock()
 				for len(waitQueue[k]) > 0 {
@@ -354,7 +382,7 @@ func driveRandom(w *world, rng *mon.RNG, p prim, fifoCheck bool, park func(g int
 				mu.Lock()
 				var still []int
 				for _, g := range waitQueue[k] {
-					if gs[g].waiting != nil {
+					if gs[g].waiting != nil && gs[g].waiting.key == k {
 						still = append(still, g)
 					} else {
 						waitedAny = true
@@ -363,6 +391,9 @@ func driveRandom(w *world, rng *mon.RNG, p prim, fifoCheck bool, park func(g int
 				waitQueue[k] = still
 				mu.Unlock()
 			}
+		}
+		if stillParked {
+			continue // the rules below presuppose a settled lock
 		}
 		// bounded progress: a free key with waiters must have granted somebody
 		for _, k := range keys {
@@ -388,6 +419,10 @@ func driveRandom(w *world, rng *mon.RNG, p prim, fifoCheck bool, park func(g int
 				rec.Count("fifomap.idle_len_checked", 1)
 			}
 		}
+	}
+	if anyParked() {
+		park(-1)
+		p.quiesce()
 	}
 	// drain: release everything until nobody holds or waits
 	for iter := 0; iter < 200 && !w.viol; iter++ {
@@ -486,8 +521,13 @@ func (h *hookParker) hook(name string) {
 	}
 }
 
-func (h *hookParker) resume(int) bool {
+func (h *hookParker) resume(arg int) bool {
 	h.mu.Lock()
+	if arg == -2 { // query only: is anybody parked?
+		n := len(h.parked)
+		h.mu.Unlock()
+		return n > 0
+	}
 	ps := h.parked
 	h.parked = nil
 	h.mu.Unlock()
